@@ -597,37 +597,47 @@ def unknownMulLoop : List Nat → (cost vs : Nat) → Nat
     let cost := cost + (rs * vs) / MUL_SQUARE_COST_PER_BYTE_DIVIDER
     unknownMulLoop rest cost (vs + rs)
 
+/-- the `cost_function` branches of `default_unknown_op`: the cost before the multiplier is applied
+(`0` = constant, `1` = like `op_add`, `2` = like `op_multiply`, `3` = like `op_concat`) -/
+def unknownBaseCost (costFunction : Nat) (args : Tree) : Except RefErr Nat :=
+  if costFunction == 0 then .ok 1
+  else if costFunction == 1 then
+    match argsLen args with
+    | .error e => .error e
+    | .ok lens =>
+      let argSize := lens.foldl (· + ·) 0
+      let cost := lens.foldl (fun c _ => c + ARITH_COST_PER_ARG) ARITH_BASE_COST
+      .ok (cost + argSize * ARITH_COST_PER_BYTE)
+  else if costFunction == 2 then
+    match argsLen args with
+    | .error e => .error e
+    | .ok [] => .ok MUL_BASE_COST
+    | .ok (vs :: operands) => .ok (unknownMulLoop operands MUL_BASE_COST vs)
+  else
+    match argsLen args with
+    | .error e => .error e
+    | .ok lens =>
+      let cost := lens.foldl (fun c _ => c + CONCAT_COST_PER_ARG) CONCAT_BASE_COST
+      let length := lens.foldl (· + ·) 0
+      .ok (cost + length * CONCAT_COST_PER_BYTE)
+
+/-- `cost_function = (op[-1] & 0b11000000) >> 6` -/
+def unknownCostFunction (op : Bytes) : Nat :=
+  let lastByte := (op.getLast?.map UInt8.toNat).getD 0    -- `op[-1]`, `op` is not empty here
+  (lastByte &&& 0b11000000) >>> 6
+
+/-- `cost_multiplier = int.from_bytes(op[:-1], "big", signed=False) + 1` -/
+def unknownCostMultiplier (op : Bytes) : Nat := unsignedFromBytes (op.take (op.length - 1)) + 1
+
 def defaultUnknownOp (op : Bytes) (args : Tree) : Res :=
   -- "any opcode starting with ffff is reserved (i.e. fatal error); opcodes are not allowed to be empty"
   if op.length == 0 || (op.take 2).map UInt8.toNat == [0xff, 0xff] then .error .reserved
   else
-    let lastByte := (op.getLast?.map UInt8.toNat).getD 0    -- `op[-1]`, `op` is not empty here
-    let costFunction := (lastByte &&& 0b11000000) >>> 6
+    let costFunction := unknownCostFunction op
     if op.length > 5 then .error .invalid
     else
-      let costMultiplier := unsignedFromBytes (op.take (op.length - 1)) + 1
-      let cost : Except RefErr Nat :=
-        if costFunction == 0 then .ok 1
-        else if costFunction == 1 then
-          match argsLen args with
-          | .error e => .error e
-          | .ok lens =>
-            let argSize := lens.foldl (· + ·) 0
-            let cost := lens.foldl (fun c _ => c + ARITH_COST_PER_ARG) ARITH_BASE_COST
-            .ok (cost + argSize * ARITH_COST_PER_BYTE)
-        else if costFunction == 2 then
-          match argsLen args with
-          | .error e => .error e
-          | .ok [] => .ok MUL_BASE_COST
-          | .ok (vs :: operands) => .ok (unknownMulLoop operands MUL_BASE_COST vs)
-        else
-          match argsLen args with
-          | .error e => .error e
-          | .ok lens =>
-            let cost := lens.foldl (fun c _ => c + CONCAT_COST_PER_ARG) CONCAT_BASE_COST
-            let length := lens.foldl (· + ·) 0
-            .ok (cost + length * CONCAT_COST_PER_BYTE)
-      match cost with
+      let costMultiplier := unknownCostMultiplier op
+      match unknownBaseCost costFunction args with
       | .error e => .error e
       | .ok cost =>
         let cost := cost * costMultiplier
